@@ -2,11 +2,12 @@
 # tools/sweep.sh <tier> <seed...>  : run every check of the manifest under the given seeds
 tier=$1; shift
 cd "$(dirname "$0")/.." || exit 3
+mkdir -p out
 for seed in "$@"; do
   for c in C01 C02 C03 C04 C05 C06 C07 C08 C09 C10 C11 C12 C13 C14 C15 C16 C17 C18; do
-    VERIF_SEED=$seed ./check $c $tier > out/sweep_$c_$seed.log 2>&1
+    VERIF_SEED=$seed ./check $c $tier > out/sweep_${c}_${seed}.log 2>&1
     rc=$?
-    echo "seed=$seed $c rc=$rc $(tail -1 out/sweep_$c_$seed.log | cut -c1-160)"
-    if [ $rc -ne 0 ]; then grep -E "VIOLATION|INCONCLUSIVE" out/sweep_$c_$seed.log | head -5 | cut -c1-300; fi
+    echo "seed=$seed $c rc=$rc $(tail -1 out/sweep_${c}_${seed}.log | cut -c1-160)"
+    if [ $rc -ne 0 ]; then grep -E "VIOLATION|INCONCLUSIVE" out/sweep_${c}_${seed}.log | head -5 | cut -c1-300; fi
   done
 done
